@@ -1459,6 +1459,18 @@ def gen_size_exact(rng, kts=("k256", "libsecp", "ed", "comb"), targets=range(296
         combos = [(m, a, sq, t) for (m, a) in calls for sq in seqs for t in targets]
         if per_kt is not None and len(combos) > per_kt:
             combos = rng.sample(combos, per_kt)
+        # always: one large pair inserted into a minimal record so that the result has exactly the target size
+        small = sorted([[B("id"), enc_str(B("v4"))], [B(pk_key(own)), enc_str(KEYS[own]["pk"])]], key=lambda p: bytes(p[0]))
+        for m in ("insert", "insert_raw_rlp"):
+            for sq in ([1], [127]):
+                for target in targets:
+                    for n in range(100, 240):
+                        a2 = {"key": B("y"), "val": {"ty": "bytes", "v": [0xBB] * n}} if m == "insert" else {"key": B("y"), "raw": enc_str([0xBB] * n)}
+                        post, nseq = _apply_py(small, sq, m, a2)
+                        if rec_len(nseq, post) == target:
+                            steps.append({"op": "decode", "h": "r", "kt": kt, "input": {"rec": {"seq": sq, "pairs": small, "sig": {"by": own}}}, "tag": "sizex_fill_%d" % target})
+                            steps.append({"op": "call", "h": "r", "m": m, "args": a2, "signer": own, "obs": obs})
+                            break
         for m, a, sq, target in combos:
             a = dict(a)
             if a.get("pk_of") == "OWN":
